@@ -33,17 +33,28 @@ type Server struct {
 	PlanFaults    bool     // offer broken chunk plans (class Fault)
 	AuthChallenge []string // if non-empty: first request without Authorization gets 401 with a challenge chosen from this list
 
+	// UploadRedirect: a PATCH that carries X-Redirect-Uploads is answered 307 to a CDN upload URL (Location) with the
+	// next upload URL in Docker-Upload-Location (legacy push: parts then go to the CDN in parallel)
+	UploadRedirect bool
+	// OtherRepo: blobs the registry holds only in another repository: a HEAD/GET in the pushed repository says 404
+	// until the blob is mounted (POST ?mount=) or uploaded there
+	OtherRepo map[string]bool
+
 	Log          []string
 	Accepted     map[string]bool // digests whose upload was completed (or found present)
 	ManifestPuts []string
-	uploads      map[string]*upload
-	nextUpload   int
-	NoFaultsLeft bool // harness switch: serve everything correctly from now on
+	// ManifestPutMissing: for every manifest PUT that arrived, the layers it names that the registry did not hold at
+	// that moment ("<repo:tag> <digest>"); the registry accepts the manifest all the same and leaves the verdict to the oracle
+	ManifestPutMissing []string
+	uploads            map[string]*upload
+	nextUpload         int
+	NoFaultsLeft       bool // harness switch: serve everything correctly from now on
 }
 
 type upload struct {
 	digest string
 	data   []byte
+	have   []bool // which bytes of data were received
 }
 
 func Digest(b []byte) string { return fmt.Sprintf("sha256:%x", sha256.Sum256(b)) }
@@ -249,6 +260,10 @@ func (s *Server) RoundTrip(req *http.Request) (*http.Response, error) {
 	if res == nil {
 		return nil, errNet
 	}
+	if fault == "lost-response" {
+		// the registry did what was asked; the answer never arrives
+		return nil, errNet
+	}
 	// body-level faults
 	if b, ok := res.Body.(*body); ok && res.StatusCode/100 == 2 && len(b.data) > 0 {
 		switch fault {
@@ -307,6 +322,29 @@ func (s *Server) route(req *http.Request) *http.Response {
 		if strings.HasPrefix(path, "/cdn/") {
 			return s.serveBlob(req, strings.TrimPrefix(path, "/cdn/"), false)
 		}
+		if strings.HasPrefix(path, "/cdnup/") && req.Method == "PUT" {
+			// /cdnup/<upload id>/<first>-<last>: one part of a redirected upload
+			p := strings.Split(strings.TrimPrefix(path, "/cdnup/"), "/")
+			u := s.uploads[p[0]]
+			var a, b int
+			if u == nil || len(p) != 2 {
+				return s.errJSON(req, 404, "BLOB_UPLOAD_UNKNOWN", "upload unknown")
+			}
+			if n, _ := fmt.Sscanf(p[1], "%d-%d", &a, &b); n != 2 || a < 0 || b < a-1 {
+				return s.errJSON(req, 400, "BAD_RANGE", p[1])
+			}
+			var data []byte
+			var err error
+			if req.Body != nil {
+				data, err = io.ReadAll(req.Body)
+			}
+			if err != nil || len(data) != b-a+1 {
+				return s.errJSON(req, 400, "BAD_BODY", fmt.Sprintf("%d bytes for %s: %v", len(data), p[1], err))
+			}
+			u.put(a, data)
+			s.logf("PART-STORED %s %s", p[0], p[1])
+			return s.resp(req, 200, map[string]string{"ETag": "x"}, nil)
+		}
 		return s.errJSON(req, 404, "NOT_FOUND", "no route")
 	}
 	repo := parts[0] + "/" + parts[1]
@@ -320,6 +358,17 @@ func (s *Server) route(req *http.Request) *http.Response {
 		return s.resp(req, 200, map[string]string{"Content-Type": "application/vnd.docker.distribution.manifest.v2+json"}, m)
 	case kind == "manifests" && req.Method == "PUT":
 		data, _ := io.ReadAll(req.Body)
+		var m struct {
+			Config struct{ Digest string }   `json:"config"`
+			Layers []struct{ Digest string } `json:"layers"`
+		}
+		if json.Unmarshal(data, &m) == nil {
+			for _, l := range append(m.Layers, struct{ Digest string }{m.Config.Digest}) {
+				if _, ok := s.Blobs[l.Digest]; (!ok || s.OtherRepo[l.Digest]) && l.Digest != "" {
+					s.ManifestPutMissing = append(s.ManifestPutMissing, repo+":"+ref+" "+l.Digest)
+				}
+			}
+		}
 		s.Manifests[repo+":"+ref] = data
 		s.ManifestPuts = append(s.ManifestPuts, repo+":"+ref)
 		s.logf("MANIFEST-COMMITTED %s", repo+":"+ref)
@@ -339,7 +388,7 @@ func (s *Server) route(req *http.Request) *http.Response {
 
 func (s *Server) serveBlob(req *http.Request, digest string, ignoreRange bool) *http.Response {
 	data, ok := s.Blobs[digest]
-	if !ok {
+	if !ok || s.OtherRepo[digest] {
 		return s.errJSON(req, 404, "BLOB_UNKNOWN", "blob unknown")
 	}
 	if rg := req.Header.Get("Range"); rg != "" && !ignoreRange {
@@ -418,11 +467,40 @@ func (s *Server) serveChunksums(req *http.Request, repo, digest string) *http.Re
 	return s.resp(req, 200, map[string]string{"Content-Location": loc}, b.Bytes())
 }
 
+func (u *upload) put(a int, data []byte) {
+	for len(u.data) < a+len(data) {
+		u.data = append(u.data, 0)
+		u.have = append(u.have, false)
+	}
+	copy(u.data[a:], data)
+	for i := range data {
+		u.have[a+i] = true
+	}
+}
+
+func (u *upload) complete() bool {
+	for _, h := range u.have {
+		if !h {
+			return false
+		}
+	}
+	return true
+}
+
 func (s *Server) serveUpload(req *http.Request, repo string, rest []string) *http.Response {
 	q := req.URL.Query()
 	switch req.Method {
 	case "POST":
 		d := q.Get("digest")
+		if m := q.Get("mount"); m != "" {
+			// cross-repository mount (legacy push of a layer that came FROM another model)
+			if _, ok := s.Blobs[m]; ok {
+				delete(s.OtherRepo, m)
+				s.Accepted[m] = true
+				s.logf("BLOB-MOUNTED %s", m)
+				return s.resp(req, 201, nil, nil)
+			}
+		}
 		if d != "" {
 			if _, ok := s.Blobs[d]; ok {
 				// already present: no Location (new client) / 201 (legacy)
@@ -445,28 +523,34 @@ func (s *Server) serveUpload(req *http.Request, repo string, rest []string) *htt
 		if u == nil {
 			return s.errJSON(req, 404, "BLOB_UPLOAD_UNKNOWN", "upload unknown")
 		}
-		data, err := io.ReadAll(req.Body)
-		if err != nil {
-			return s.errJSON(req, 400, "BAD_BODY", err.Error())
+		loc := fmt.Sprintf("%s://%s/v2/%s/blobs/uploads/%s", req.URL.Scheme, req.URL.Host, repo, id)
+		if req.Method == "PATCH" && s.UploadRedirect && req.Header.Get("X-Redirect-Uploads") != "" && s.CDNHost != "" {
+			// the body is not consumed: the part goes to the CDN URL, the next part may start at once
+			cdn := fmt.Sprintf("https://%s/cdnup/%s/%s", s.CDNHost, id, req.Header.Get("Content-Range"))
+			return s.resp(req, 307, map[string]string{"Location": cdn, "Docker-Upload-Location": loc}, nil)
+		}
+		var data []byte
+		if req.Body != nil {
+			var err error
+			if data, err = io.ReadAll(req.Body); err != nil {
+				return s.errJSON(req, 400, "BAD_BODY", err.Error())
+			}
 		}
 		if cr := req.Header.Get("Content-Range"); cr != "" {
 			// "a-b"
 			var a, b int
 			fmt.Sscanf(cr, "%d-%d", &a, &b)
-			for len(u.data) < a+len(data) {
-				u.data = append(u.data, 0)
-			}
-			copy(u.data[a:], data)
+			u.put(a, data)
 		} else {
-			u.data = append(u.data, data...)
+			u.put(len(u.data), data)
 		}
-		loc := fmt.Sprintf("%s://%s/v2/%s/blobs/uploads/%s", req.URL.Scheme, req.URL.Host, repo, id)
 		d := q.Get("digest")
 		if req.Method == "PUT" && d != "" {
-			if Digest(u.data) != d {
+			if !u.complete() || Digest(u.data) != d {
 				return s.errJSON(req, 400, "DIGEST_INVALID", "digest mismatch")
 			}
 			s.Blobs[d] = u.data
+			delete(s.OtherRepo, d)
 			s.Accepted[d] = true
 			s.logf("BLOB-ACCEPTED %s", d)
 			return s.resp(req, 201, nil, nil)
@@ -474,6 +558,18 @@ func (s *Server) serveUpload(req *http.Request, repo string, rest []string) *htt
 		return s.resp(req, 202, map[string]string{"Location": loc, "Docker-Upload-Location": loc}, nil)
 	}
 	return s.errJSON(req, 405, "UNSUPPORTED", "method")
+}
+
+// Multi routes requests to one of several registries by host (each server also answers for its CDN host).
+type Multi []*Server
+
+func (m Multi) RoundTrip(req *http.Request) (*http.Response, error) {
+	for _, s := range m {
+		if req.URL.Host == s.Host || (s.CDNHost != "" && req.URL.Host == s.CDNHost) {
+			return s.RoundTrip(req)
+		}
+	}
+	return nil, errNet
 }
 
 // SortedBlobDigests is a helper for deterministic iteration.
